@@ -147,23 +147,49 @@ def counting_loop(view, loop):
     elif where == "inc-last":
         stmts = stmts[:-1]
         where = "inc"
+    inside = {x.get("i") for x in walk(loop)}
     if initv is None:
-        # start value: the declaration's initialiser, or the single plain assignment outside the loop
-        var = view.locals.get(d)
-        inside = {x.get("i") for x in walk(loop)}
-        outer = [w for w in view.writes.get(d, []) if w.get("i") not in inside]
-        if outer:
-            if len(outer) != 1 or outer[0].get("k") != "Assign" or outer[0].get("op") != "=":
-                raise NotRecognised("start value of the loop variable of %s" % render(loop))
-            initv = outer[0]["rhs"]
-            init_id = outer[0].get("i")
-        elif var is not None and var.get("init") is not None:
-            initv = var["init"]
-        else:
-            raise NotRecognised("loop without initialisation: %s" % render(loop))
-    others = [w for w in view.writes.get(d, []) if w.get("i") != strip(stepnode).get("i") and w.get("i") != init_id]
+        # start value: the closest definition of the variable in front of the loop in the same statement list — its
+        # declaration with initialiser or a plain assignment `v = e;` — with no other write of v in between.  One index
+        # variable may serve several loops one after the other (`j = a; while(j < b) {..}  j = c; while(j < e) {..}`).
+        par = view.parent.get(loop.get("i"))
+        sibs = par.get("s") if par is not None and isinstance(par.get("s"), list) else None
+        if sibs is not None:
+            pos = next((k for k, x in enumerate(sibs) if x is loop or x.get("i") == loop.get("i")), None)
+            for x in reversed(sibs[:pos] if pos is not None else []):
+                xs = strip(x)
+                if xs.get("k") == "Decl" and any(v.get("d") == d for v in xs.get("vars", [])):
+                    v0 = [v for v in xs["vars"] if v.get("d") == d][0]
+                    if v0.get("init") is not None:
+                        initv = v0["init"]
+                        init_id = xs.get("i")
+                    break
+                if xs.get("k") == "Assign" and xs.get("op") == "=" and strip(xs["lhs"]).get("k") == "Ref" and strip(xs["lhs"])["d"] == d:
+                    initv = xs["rhs"]
+                    init_id = xs.get("i")
+                    break
+                if any(w.get("i") in {y.get("i") for y in walk(x)} for w in view.writes.get(d, [])):
+                    break       # something else writes the variable between its last definition and this loop
+        if initv is None:
+            var = view.locals.get(d)
+            outer = [w for w in view.writes.get(d, []) if w.get("i") not in inside]
+            if outer:
+                if len(outer) != 1 or outer[0].get("k") != "Assign" or outer[0].get("op") != "=":
+                    raise NotRecognised("start value of the loop variable of %s" % render(loop))
+                initv = outer[0]["rhs"]
+                init_id = outer[0].get("i")
+            elif var is not None and var.get("init") is not None:
+                initv = var["init"]
+            else:
+                raise NotRecognised("loop without initialisation: %s" % render(loop))
+    # inside this loop nothing but the step writes the variable (what other loops do with it before / after is their business
+    # as long as this loop's start value is the definition found above)
+    others = [w for w in view.writes.get(d, []) if w.get("i") in inside and w.get("i") != strip(stepnode).get("i") and w.get("i") != init_id]
     if others:
         raise NotRecognised("loop variable written inside the loop: %s" % render(others[0]))
+    if init_id is None or init_id in inside:
+        # for-init declarations / assignments belong to the loop; a start value found by the fallback must be the only outer write
+        pass
     return {"d": d, "init": initv, "cond": c, "step": step, "where": where, "stmts": stmts, "loop": loop}
 
 
